@@ -10,6 +10,8 @@ import (
 	"encoding/hex"
 	"errors"
 	"fmt"
+	"io"
+	"log/slog"
 	"time"
 
 	"github.com/btcsuite/btcd/chaincfg"
@@ -37,6 +39,8 @@ type vhPay struct {
 	Partial    bool
 }
 
+type vhFeeQ struct{ Amount, Reserve uint64 }
+
 type vhAnswer struct {
 	Kind     string // "pay" | "status"
 	Status   lightning.State
@@ -49,6 +53,7 @@ type vhAnswer struct {
 type vhLN struct {
 	Pays      []vhPay
 	Answers   []vhAnswer
+	FeeQ      []vhFeeQ
 	Created   int
 	StatusQ   int
 	InvoiceQ  int
@@ -106,8 +111,12 @@ func (l *vhLN) OutgoingPaymentStatus(ctx context.Context, hash string) (lightnin
 	return l.answer("status")
 }
 
-// FeeReserve: an arbitrary but deterministic function of the amount (uninterpreted function)
-func (l *vhLN) FeeReserve(amount uint64) uint64 { return v.UF64("ln.feereserve", amount) }
+// FeeReserve: an arbitrary but deterministic function of the amount (uninterpreted function), recorded
+func (l *vhLN) FeeReserve(amount uint64) uint64 {
+	r := v.UF64("ln.feereserve", amount)
+	l.FeeQ = append(l.FeeQ, vhFeeQ{Amount: amount, Reserve: r})
+	return r
+}
 func (l *vhLN) SubscribeInvoice(ctx context.Context, paymentHash string) (lightning.InvoiceSubscriptionClient, error) {
 	return &vhSub{hash: paymentHash}, nil
 }
@@ -163,6 +172,7 @@ func vhNewEnv(nKeysets int) *vhEnv {
 	ln := &vhLN{}
 	m := &Mint{db: db, keysets: map[string]crypto.MintKeyset{}, lightningClient: ln, publisher: pubsub.NewPubSub()}
 	m.ctx, m.cancel = context.WithCancel(context.Background())
+	m.logger = slog.New(slog.NewTextHandler(io.Discard, nil))
 	env := &vhEnv{m: m, db: db, ln: ln}
 	for i := 0; i < nKeysets; i++ {
 		ppk := v.U64(fmt.Sprintf("ppk.%d", i))
@@ -181,7 +191,7 @@ func vhNewEnv(nKeysets int) *vhEnv {
 // restart models a process restart: a fresh Mint object over the surviving database and backend
 func (env *vhEnv) restart() *Mint {
 	m := &Mint{db: env.db, keysets: env.m.keysets, activeKeyset: env.m.activeKeyset, lightningClient: env.ln,
-		publisher: pubsub.NewPubSub(), limits: env.m.limits, mppEnabled: env.m.mppEnabled}
+		publisher: pubsub.NewPubSub(), limits: env.m.limits, mppEnabled: env.m.mppEnabled, logger: env.m.logger}
 	m.ctx, m.cancel = context.WithCancel(context.Background())
 	env.m = m
 	return m
